@@ -44,3 +44,70 @@ package eni
 //@   loop 1 invariant forall k netip.Addr :: k in lo && old(lo[k].status) != 1 ==> lo[k].status == old(lo[k].status)
 //@   loop 1 invariant forall p *IP :: p.status == old(p.status) || (old(p.status) == 1 && p.status == 2)
 //@ guard call sets.New in syncIPLocked: arg0 == remote
+
+//@ for C06
+
+//@ # ---- disposal never touches what is in use ----
+//@ # the primary address of an interface is never marked for unassignment
+//@ func IP.Dispose
+//@   modifies IP.status
+//@   ensures ip.primary ==> ip.status == old(ip.status)
+//@   ensures !ip.primary ==> ip.status == 3
+//@   ensures forall q *IP :: q != ip ==> q.status == old(q.status)
+
+//@ # an address is marked for unassignment only while no pod holds it (pool shrink and start-up trim)
+//@ guard call IP.Dispose in Dispose: recv.podID == ""
+//@ guard call IP.Dispose in load: recv.podID == ""
+
+//@ func Set.Idles
+//@   modifies nothing
+//@   ensures forall i int :: 0 <= i && i < len(result) ==> result[i].podID == ""
+//@   loop 1 invariant forall i int :: 0 <= i && i < len(result) ==> result[i].podID == ""
+
+//@ func Set.InUse
+//@   modifies nothing
+//@   ensures len(result) == 0 ==> forall k netip.Addr :: k in s ==> s[k].podID == ""
+//@   loop 1 invariant len(result) == 0 ==> forall k netip.Addr :: seen(k) ==> s[k].podID == ""
+
+//@ # an interface may go only if no address of it is held, no request is queued on it, and it is neither trunk nor RDMA
+//@ func Local.canDispose
+//@   requires l != nil
+//@   modifies Local.allocatingV4, Local.allocatingV6, box AllocatingRequests
+//@   ensures result && l.eni != nil ==> (forall k netip.Addr :: k in l.ipv4 ==> l.ipv4[k].podID == "") && (forall k netip.Addr :: k in l.ipv6 ==> l.ipv6[k].podID == "")
+//@   ensures result && l.eni != nil ==> len(l.allocatingV4) == 0 && len(l.allocatingV6) == 0 && !l.eni.Trunk
+//@   ensures result && l.eni != nil ==> toLower(l.eniType) != "trunk" && toLower(l.eniType) != "erdma"
+
+//@ ghost c06can bool = false
+//@ func Local.Dispose
+//@   requires l != nil
+//@   at call Local.canDispose: ghost c06can = result
+//@ # the whole interface is given up only right after canDispose said yes, under the same lock
+//@ guard store Local.status in Dispose: value != 3 || c06can
+
+//@ func Local.factoryDisposeWorker
+//@   requires l != nil && l.cond != nil && l.factory != nil
+//@   at call Local.canDispose: ghost c06can = result
+//@   at call UnAssignNIPv4: ghost c07u4 = arg1
+//@   at call UnAssignNIPv4: ghost c07u4ok = (result == nil)
+//@   at call UnAssignNIPv6: ghost c07u6 = arg1
+//@   at call UnAssignNIPv6: ghost c07u6ok = (result == nil)
+//@ guard call DeleteNetworkInterface in factoryDisposeWorker: c06can
+
+//@ # ---- per-interface address quota: a request is queued only while tracked + queued addresses stay within the cap ----
+//@ func Local.Allocate
+//@   loop 1 unroll 2
+//@   loop 2 unroll 2
+//@ guard store Local.allocatingV4 in Allocate: len(value) <= len(target.allocatingV4) || len(target.ipv4) + len(value) <= target.cap
+//@ guard store Local.allocatingV6 in Allocate: len(value) <= len(target.allocatingV6) || len(target.ipv6) + len(value) <= target.cap
+
+//@ for C06 C07
+//@ ghost c07u4 []netip.Addr
+//@ ghost c07u4ok bool = false
+//@ ghost c07u6 []netip.Addr
+//@ ghost c07u6ok bool = false
+
+//@ for C07
+
+//@ # ---- only what the cloud confirmed as unassigned leaves the pool's tracking ----
+//@ guard call Set.Delete#1 in factoryDisposeWorker: c07u4ok && arg0 == c07u4
+//@ guard call Set.Delete#2 in factoryDisposeWorker: c07u6ok && arg0 == c07u6
